@@ -2,7 +2,7 @@
    ExtrOcamlBasic only: N, positive, nat, byte stay Coq datatypes. *)
 From Coq Require Extraction ExtrOcamlBasic.
 From Coq Require Import NArith.
-From V Require Import Model.Xdr Model.XdrConform Gen.GenXdr Gen.GenRfc Model.SimpleModel Model.KvsModel Gen.GenSuper Model.SuperModel Model.Lib Model.Afs Model.Abs Model.Agree Model.WalDisk Model.TraceCheck Model.Lin Model.DirModel Model.AllocModel.
+From V Require Import Model.Xdr Model.XdrConform Gen.GenXdr Gen.GenRfc Model.SimpleModel Model.KvsModel Gen.GenSuper Model.SuperModel Model.Lib Model.Afs Model.Abs Model.Agree Model.WalDisk Model.TraceCheck Model.Lin Model.DirModel Model.AllocModel Model.IcacheModel.
 Extraction Blacklist String List Nat.
 Set Extraction KeepSingleton.
 Extraction "extracted.ml"
@@ -20,6 +20,7 @@ Extraction "extracted.ml"
   TraceCheck.asc_b TraceCheck.asc_f TraceCheck.commit_phase_b TraceCheck.balanced_b TraceCheck.waits TraceCheck.committed
   Xdr.enc Xdr.dec XdrConform.lookup_ci GenXdr.gen_env GenRfc.rfc_env
   Lin.lin_check
+  IcacheModel.icstep IcacheModel.ic_make IcacheModel.ic_disk_at IcacheModel.ic_cache_at
   AllocModel.astep AllocModel.a_init_list AllocModel.a_disk_list AllocModel.a_mem_size
   DirModel.dm_lookup DirModel.dm_addx DirModel.rem_name DirModel.drop_cache DirModel.dm_make DirModel.dm_cache_list DirModel.d_slots
   WalDisk.recover_log WalDisk.fs_part WalDisk.read_hdr Byte.to_N.
